@@ -16,3 +16,21 @@ package httpproxy
 //@ func ServerHandle
 //@   ensures isnil(err) && !isnil(usernameByToken) ==> (exists k string :: has(usernameByToken, k) && usernameByToken[k] == username)
 //@   ensures isnil(err) ==> !isnil(pc)
+
+// Plain-HTTP forwarding (property C16). After the cleaning step no hop-by-hop field, no field the proxy
+// itself owns and no proxy credential is left in the header, and nothing was added to it.
+//@ func removeConnectionSpecificFields
+//@   ensures !has(header, "Connection") && !has(header, "Proxy-Connection") && !has(header, "Keep-Alive") && !has(header, "Te") && !has(header, "Transfer-Encoding")
+//@   ensures !has(header, "Proxy-Authenticate") && !has(header, "Proxy-Authorization") && !has(header, "Proxy-Authentication-Info")
+//@   ensures forall k string :: has(header, k) ==> old(has(header, k))
+//@   ensures forall k string :: has(trailer, k) ==> old(has(trailer, k))
+//@   loop 0 invariant (forall k string :: has(header, k) ==> old(has(header, k))) && (forall k string :: has(trailer, k) ==> old(has(trailer, k)))
+//@   loop 1 invariant (forall k string :: has(header, k) ==> old(has(header, k))) && (forall k string :: has(trailer, k) ==> old(has(trailer, k)))
+
+// Every request written to the origin has been cleaned first, has no Upgrade field, and (after the first) is
+// for the same host as the first and is not a CONNECT.
+//@ func serverForwardRequests
+//@   requires !isnil(req)
+//@   callsite Request).Write: !has(req.Header, "Connection") && !has(req.Header, "Proxy-Authorization") && !has(req.Header, "Upgrade") && !has(req.Header, "Transfer-Encoding") && !has(req.Header, "Proxy-Connection") && !has(req.Header, "Keep-Alive") && !has(req.Header, "Te")
+//@   callsite Request).Write: req.Host == fixedHost
+//@   loop 0 invariant req.Host == fixedHost
